@@ -4,7 +4,37 @@ import ast
 from .astutil import dotted
 from .bitcells import (Unsupported, Param, View, PCell, TOP, merge_pcells, cells_overlap, INF)
 
-MUTATORS = {'setdefault', 'update', 'pop', 'popitem', 'clear', '__setitem__', '__delitem__'}
+MUTATORS = {'setdefault', 'update', 'pop', 'popitem', 'clear', '__setitem__', '__delitem__', 'append', 'extend', 'insert',
+            'remove', 'sort', 'reverse', 'add', 'discard', 'difference_update', 'intersection_update'}
+LOG_METHODS = {'debug', 'info', 'warning', 'warn', 'error', 'critical', 'exception', 'log'}
+
+
+UNIVERSE = frozenset([frozenset()])
+
+
+def simplify_region(region):
+    region = set(region)
+    changed = True
+    while changed:
+        changed = False
+        lst = list(region)
+        for i in range(len(lst)):
+            for j in range(i + 1, len(lst)):
+                a, b = lst[i], lst[j]
+                if a <= b or b <= a:
+                    region.discard(b if a <= b else a)
+                    changed = True
+                    break
+                d = a ^ b
+                if len(d) == 2 and len({x[0] for x in d}) == 1:
+                    region.discard(a)
+                    region.discard(b)
+                    region.add(a & b)
+                    changed = True
+                    break
+            if changed:
+                break
+    return frozenset(region)
 
 
 class State:
@@ -16,6 +46,9 @@ class State:
         self.facts = frozenset()
         self.imprecise = False
         self.dead = False
+        # outcomes of conditions the domain cannot attribute to operand values under which this state is reached:
+        # a disjunction of conjunctions of (fork id, 'T' | 'F'); {frozenset()} = unconditionally
+        self.forks = UNIVERSE
 
     def clone(self):
         s = State()
@@ -26,14 +59,24 @@ class State:
         s.facts = self.facts
         s.imprecise = self.imprecise
         s.dead = self.dead
+        s.forks = self.forks
         return s
 
     def become(self, other):
         self.env, self.stack, self.cells, self.lookup = other.env, other.stack, other.cells, other.lookup
         self.facts, self.imprecise, self.dead = other.facts, other.imprecise, other.dead
+        self.forks = other.forks
 
     def cell_key(self, src):
-        return sorted(c.rng() for c in self.cells.get(src, []))
+        """canonical form of the value set of an operand (adjustments ignored)"""
+        cells = sorted(self.cells.get(src, []), key=lambda c: (c.m, c.r, c.lo))
+        out = []
+        for c in cells:
+            if out and (out[-1][2], out[-1][3]) == (c.m, c.r) and c.lo <= out[-1][1] + c.m:
+                out[-1][1] = max(out[-1][1], c.hi)
+            else:
+                out.append([c.lo, c.hi, c.m, c.r])
+        return out
 
 
 class ModuleModel:
@@ -107,6 +150,17 @@ class ModuleModel:
                 elif isinstance(n, ast.AugAssign) and isinstance(n.target, ast.Name):
                     pass
 
+    def written_by_functions(self, name):
+        return any(not self._shadowed(n, name) for (k, n) in self.table_sites.get(name, []))
+
+    def is_logger(self, name):
+        """NAME = logging.getLogger(...) at module level (calls of its methods have no effect on the encoding)"""
+        if not self.stable(name):
+            return False
+        st = self.facts.assign_nodes.get(name)
+        return (isinstance(st, ast.Assign) and isinstance(st.value, ast.Call)
+                and dotted(st.value.func) in ('logging.getLogger', 'getLogger'))
+
     def stable(self, name):
         """exactly one module-level binding and never rebound through `global`"""
         return self.bind_count.get(name, 0) == 1 and name not in self.global_decl
@@ -162,6 +216,14 @@ def model_of(facts):
 class Joiner:
     """join of two states at a control-flow merge (needs the interpreter's channel counter)"""
 
+    def fork(self, st):
+        """both outcomes of a condition that says nothing about operand values"""
+        self.nfork += 1
+        t, f = st, st.clone()
+        t.forks = frozenset(c | {(self.nfork, 'T')} for c in st.forks)
+        f.forks = frozenset(c | {(self.nfork, 'F')} for c in f.forks)
+        return t, f
+
     def new_channel(self):
         self.nch += 1
         return self.nch
@@ -203,6 +265,15 @@ class Joiner:
             if a.cell_key(src) != b.cell_key(src):
                 differing += 1
             out.cells[src] = self.union_cells(src, ca, cb)
+        # forks on conditions that are not about operand values: harmless when both sides arrive with the same value sets
+        if a.forks == b.forks:
+            out.forks = a.forks
+        else:
+            same = all(a.cell_key(src) == b.cell_key(src) for src in set(a.cells) | set(b.cells)) and all(
+                a.lookup.get(src) == b.lookup.get(src) for src in set(a.lookup) | set(b.lookup))
+            if not same:
+                out.imprecise = True
+            out.forks = simplify_region(a.forks | b.forks)
         if differing > 1:
             # the two sides constrain several operands jointly: the union of two products is over-approximated by a product
             out.imprecise = True
@@ -228,19 +299,33 @@ class Joiner:
         return TOP
 
     def union_cells(self, src, ca, cb):
+        """set union of two families of cells; where both cover a value their adjustment channels must agree"""
+        classes = {}
+        for c in list(ca) + list(cb):
+            classes.setdefault((c.m, c.r), []).append(c)
+        keys = list(classes)
+        for i in range(len(keys)):
+            for j in range(i + 1, len(keys)):
+                if any(cells_overlap(a, b) for a in classes[keys[i]] for b in classes[keys[j]]):
+                    raise Unsupported('operand {}: overlapping value sets with different divisibility reach a merge'.format(src))
         out = []
-        for c in ca:
-            out.append(c.copy())
-        for c in cb:
-            same = [o for o in out if o.rng() == c.rng()]
-            if same:
-                o = same[0]
-                for k, v in c.d.items():
-                    if k in o.d and o.d[k] != v:
-                        raise Unsupported('operand {}: the same values reach a merge with different adjustments'.format(src))
-                    o.d[k] = v
-                continue
-            if any(cells_overlap(o, c) for o in out):
-                raise Unsupported('operand {}: overlapping value sets reach a merge (condition not understood)'.format(src))
-            out.append(c.copy())
+        for (m, r), cs in classes.items():
+            pts = sorted({c.lo for c in cs} | {c.hi + 1 for c in cs})
+            for lo, nxt in zip(pts, pts[1:]):
+                hi = nxt - 1
+                d = None
+                for c in cs:
+                    if c.lo <= lo and hi <= c.hi:
+                        if d is None:
+                            d = dict(c.d)
+                            continue
+                        for k, v in c.d.items():
+                            if k in d and d[k] != v:
+                                raise Unsupported('operand {}: the same values reach a merge with different adjustments'.format(src))
+                            d[k] = v
+                if d is None:
+                    continue
+                seg = PCell(lo, hi, m, r, d).sub(lo, hi)
+                if seg is not None:
+                    out.append(seg)
         return merge_pcells(out)
